@@ -508,3 +508,127 @@ def _(ctx):
                 bad.append('%s: %s uses %s' % (rel, fd.qname, sorted(hits)))
     ctx.record('', PROVED if not bad else FAILED, 'B', 0, ('; '.join(bad))[:1500] if bad else '%d function bodies scanned: no access to the floating-point environment, errno, clocks, random generators, environment or locale' % n_fn,
                solver='frame inference (AST)', model={'offenders': bad[:10]} if bad else None)
+
+# ------------------------------------------------------------------------------------------------ definite initialisation
+UNINIT_REPLAY = r'''
+#include "gm2calc/MSSMNoFV_onshell.hpp"
+#include "gm2calc/gm2_1loop.hpp"
+#include "gm2calc/gm2_2loop.hpp"
+#include "gm2calc/gm2_error.hpp"
+#include <cstdio>
+#include <cstring>
+#include <cmath>
+// the same point (with generation-off-diagonal trilinear input, which the library documents as ignored) is evaluated twice with different garbage left on the stack in between:
+// all results must be bit-identical and equal to the evaluation with the off-diagonal input set to zero
+static void dirty_stack(double fill) { volatile double junk[4096]; for (int i = 0; i < 4096; i++) junk[i] = fill * (i + 1); (void)junk[17]; }
+static void eval(double out[4], double offdiag) {
+   gm2calc::MSSMNoFV_onshell m; const double Pi = 3.141592653589793;
+   const Eigen::Matrix<double,3,3> one = Eigen::Matrix<double,3,3>::Identity();
+   m.set_alpha_MZ(0.0077552); m.set_alpha_thompson(0.00729735); m.set_g3(std::sqrt(4 * Pi * 0.1184));
+   m.get_physical().MFt = 173.34; m.get_physical().MFb = 4.18; m.get_physical().MFm = 0.1056583715; m.get_physical().MFtau = 1.777;
+   m.get_physical().MVWm = 80.385; m.get_physical().MVZ = 91.1876;
+   m.set_TB(10); m.set_Mu(350); m.set_MassB(150); m.set_MassWB(300); m.set_MassG(1000); m.set_MA0(1500);
+   m.set_mq2(500. * 500 * one); m.set_ml2(500. * 500 * one); m.set_md2(500. * 500 * one); m.set_mu2(500. * 500 * one); m.set_me2(500. * 500 * one);
+   Eigen::Matrix<double,3,3> A = Eigen::Matrix<double,3,3>::Zero(); A(1, 1) = 100; A(2, 2) = 200; A(0, 1) = offdiag; A(1, 2) = -offdiag; A(2, 0) = 2 * offdiag;
+   m.set_Ae(A); m.set_Au(A); m.set_Ad(A); m.set_scale(454.7);
+   try { m.calculate_masses(); out[0] = gm2calc::calculate_amu_1loop(m); out[1] = gm2calc::calculate_amu_2loop(m);
+         out[2] = gm2calc::calculate_amu_1loop_non_tan_beta_resummed(m); out[3] = gm2calc::calculate_amu_2loop_non_tan_beta_resummed(m); }
+   catch (const gm2calc::Error& e) { out[0] = out[1] = out[2] = out[3] = NAN; std::printf("exception: %s\n", e.what()); }
+}
+int main() {
+   double a[4], b[4], c[4];
+   dirty_stack(1e3); eval(a, 300);
+   dirty_stack(-7e5); eval(b, 300);
+   dirty_stack(1.0); eval(c, 0);
+   const bool same = std::memcmp(a, b, sizeof a) == 0 && std::memcmp(a, c, sizeof a) == 0;
+   if (!same) for (int i = 0; i < 4; i++) std::printf("result %d: %.17g | %.17g | off-diagonal A = 0: %.17g\n", i, a[i], b[i], c[i]);
+   std::printf("results %s on what the stack held before\n", same ? "do not depend" : "DEPEND");
+   return same ? 0 : 1;
+}
+'''
+
+def uninit_replay(model, wd):
+    from gm2v import native
+    import subprocess
+    exe = native.build_against_library(wd, UNINIT_REPLAY)
+    r = subprocess.run([exe], capture_output=True, text=True, timeout=300)
+    return r.returncode == 1, r.stdout.strip()[-1500:]
+
+def _functions_with_uninitialised_locals(w):
+    """(file, FuncDef, [names]) for every function that declares a fixed-size Eigen matrix/array or a built-in scalar without initialiser"""
+    out = []
+    for p, u in w.units.items():
+        rel = w.rel(p)
+        if rel.endswith(('gm2calc.cpp', 'slhaea.h', 'gm2_linalg.hpp', 'gm2_eigen_utils.hpp')) or '_c.cpp' in rel:
+            continue
+        for fd in u.funcs:
+            try:
+                body = w.body(fd)
+            except _cxx.ParseError:
+                continue
+            names = []
+            def visit(n):
+                if isinstance(n, _cxx.Decl) and n.init is None and n.ctor_args is None and n.dims is None and not n.is_static:
+                    tn = strip_ns(n.type.name)
+                    if tn in ('Eigen::Matrix', 'Eigen::Array', 'double', 'int', 'unsigned') and not n.type.ref and not n.type.ptr:
+                        names.append(n.name)
+            _walk(body, visit)
+            if names:
+                out.append((rel, fd, names))
+    return out
+
+@obligation('C19.no_uninitialised_reads', fns=[('src/MSSMNoFV/MSSMNoFV_onshell.cpp', 'MSSMNoFV_onshell::convert_yukawa_couplings_treelevel'),
+                                               ('src/MSSMNoFV/MSSMNoFV_onshell.cpp', 'MSSMNoFV_onshell::convert_yukawa_couplings'),
+                                               ('src/MSSMNoFV/MSSMNoFV_onshell.cpp', 'MSSMNoFV_onshell::convert_to_non_tan_beta_resummed')], replay=uninit_replay)
+def _(ctx):
+    """definite initialisation: every function of the model classes that declares a local fixed-size Eigen object or scalar WITHOUT initialiser (found on this run), and the
+    Yukawa-conversion functions that build matrices element by element, are executed on a symbolic model with indeterminate values for such locals: no path uses one
+    before it is written (Eigen does not zero-initialise; a result built from such a value depends on what ran before on the same stack)"""
+    from gm2v.values import UninitRead, EvalError
+    from gm2v.interp import Unsupported
+    stubs = {n: (lambda n: (lambda it, a, t: it.uf('fn_' + n, *[x for x in a if not isinstance(x, (Obj, Mat))])))(n) for n in LOOP}
+    stubs.update({'fs_diagonalize_hermitian': linalg_any, 'fs_svd': linalg_any, 'fs_diagonalize_symmetric': linalg_any})
+    cands = _functions_with_uninitialised_locals(ctx.w)
+    extra = [('src/MSSMNoFV/MSSMNoFV_onshell.cpp', n) for n in ('convert_yukawa_couplings_treelevel', 'convert_yukawa_couplings', 'convert_to_non_tan_beta_resummed')]
+    seen = set()
+    todo = []
+    for rel, fd, names in cands:
+        todo.append((rel, fd, names))
+        seen.add(id(fd))
+    for rel, n in extra:
+        for fd in ctx.w.find('MSSMNoFV_onshell::' + n, rel):
+            if id(fd) not in seen:
+                todo.append((rel, fd, []))
+    n_run = n_skip = 0
+    for rel, fd, names in todo:
+        cls = fd.cls
+        qn = fd.qname if isinstance(fd.qname, str) else '::'.join(fd.qname)
+        tag = qn.split('::')[-1] + ('/%d' % len(fd.params))
+        it = Interp(ctx.w, mode='sym', stubs=dict(stubs), feasibility=False, div_sides=False)
+        def mkarg(p):
+            tn = strip_ns(p.type.name)
+            if tn in ('MSSMNoFV_onshell', 'THDM', 'MSSMNoFV_onshell_mass_eigenstates', 'THDM_mass_eigenstates'):
+                return it.new_object(tn, symbolic_fields(None, prefix='a.'))
+            if tn in ('double',):
+                return z3.Real('arg_' + (p.name or 'x'))
+            if tn in ('int', 'unsigned'):
+                return 1
+            raise Unsupported('parameter type ' + tn)
+        try:
+            args = [mkarg(p) for p in fd.params]
+            this = it.new_object(cls, symbolic_fields(None, prefix='m.')) if cls and cls in ctx.w.classes else None
+            if cls and this is None:
+                raise Unsupported('class ' + str(cls))
+            if this is not None and 'verbose_output' in this.f:
+                this.f['verbose_output'] = False
+            ps = it.run_paths(lambda: it.invoke(fd, list(args), this), max_paths=64)
+            n_run += 1
+            ctx.record(tag, PROVED, 'B', 0, '%s: %d paths, locals without initialiser: %s -- none is read before it is written' % (rel, len(ps), names or '-'), solver='interpreter (definite initialisation)')
+        except UninitRead as e:
+            n_run += 1
+            ctx.record(tag, FAILED, 'B', 0, '%s: %s reaches a %s' % (rel, qn, e), model={'_uninitialised': str(e)}, solver='interpreter (definite initialisation)')
+        except (EvalError, _cxx.ParseError, KeyError, AttributeError, TypeError, IndexError) as e:
+            n_skip += 1
+            ctx.notes.append('not executed: %s (%s)' % (qn, str(e)[:80]))
+    ctx.merge_rules(it)
+    ctx.record('coverage', PROVED if n_run >= 20 else ERROR, 'B', 0, '%d functions executed, %d outside the interpreter (reported as notes)' % (n_run, n_skip))
